@@ -24,10 +24,10 @@ LEVEL = "exploration"
 RULE = ("case = (n_processes 1-4, maxtasksperchild 0-4, item count 0-12, subset of items whose filter raises, items with "
         "one-to-many (0-3) generator outputs, consumer drains or abandons after k outputs, schedule = list of ints choosing the "
         "next runnable participant at every queue/event operation and process/thread start and exit); non-trivial = (n>=2 and "
-        "more than n items) or a worker retirement (m>0 and items>m) or a raising item or an abandonment; distinct = canonical JSON")
+        "more than n items) or a worker retirement (m>0 and items>m) or a raising item or an abandonment or a second call on the same Multiprocessor object (one case in four; its items are numbered from 100); distinct = canonical JSON")
 ASSUMPTIONS = [
     "sim/pb: the schedule is owned at the granularity of queue put/get/get_nowait, event set/wait, process/thread start and exit and callback start; statements between two such operations are atomic (bytecode-level races between the parent's callback threads are not explored)",
-    "a simulated process gets a pickle round-trip copy of its line, runs it, reports (exception, poisoned) and exit code 0; abrupt death of a worker (non-zero exit code) is not modelled",
+    "a simulated process gets a pickle round-trip copy of its line, runs it, reports (exception, poisoned) and exit code 0; abrupt death of a worker (non-zero exit code) is not modelled in the simulation - the real driver lets a worker die by os._exit in the middle of an item and demands only that the call terminates without duplicated outputs",
     "real: OS schedules are sampled, not enumerated; a watchdog of 90 s (cases normally take < 2 s) marks an attempt inconclusive; only three consecutive expiries on the same case are reported as a hang",
     "filters raise Exception subclasses that survive pickling; items are never None (the poison pill)",
     "through CobaMultiprocessor the wrapped filter always returns an iterator of outputs (as ProcessTasks does)",
@@ -35,7 +35,24 @@ ASSUMPTIONS = [
 
 def expected_of(case):
     f = TagFilter(case["raising"], {int(k): v for k, v in case["fan"].items()}, 0.0, {int(k): v for k, v in case.get("kinds", {}).items()})
-    return f, Counter(f.expected(range(case["items"])))
+    return f, Counter(f.expected(items_of(case)))
+
+def items_of(case):
+    return list(case["items_list"]) if case.get("items_list") is not None else list(range(case["items"]))
+
+def calls_of(case):
+    """the first call, and - when the case re-uses the Multiprocessor object - the second one (items numbered from 100)"""
+    first = {k: v for k, v in case.items() if k not in ("then", "choices", "preemptions")}
+    out = [first]
+    if case.get("then"):
+        out.append(dict(case["then"], n=case["n"], m=case["m"]))
+    return out
+
+def combined_filter(case, cls, delay=0.0):
+    raising, fan, kinds = set(), {}, {}
+    for c in calls_of(case):
+        raising |= set(c["raising"]); fan.update({int(k): v for k, v in c["fan"].items()}); kinds.update({int(k): v for k, v in c.get("kinds", {}).items()})
+    return cls(raising, fan, delay, kinds)
 
 def is_injected(case, exc):
     """exc is the error the filter raised for one of the raising items (type and message)"""
@@ -51,6 +68,8 @@ def judge(case, outs, exc, handled=None, who="caller"):
     got = Counter((o[0], o[1]) for o in outs)
     dup = {k: v for k, v in got.items() if v > exp.get(k, 0)}
     require(not dup, "outputs duplicated or invented", extra=dup, case=info)
+    if "die" in case.get("kinds", {}).values():
+        return   # a worker died hard: only termination (checked by the caller) and no duplicates are demanded
     if exc is not None:
         require(is_injected(case, exc),
                 f"the call raised {type(exc).__name__}: {exc}, which is not one of the filter's errors", case=info)
@@ -74,17 +93,13 @@ def judge(case, outs, exc, handled=None, who="caller"):
         require(not over, "a worker handled more items than maxtasksperchild", over=over, m=m, case=info)
 
 # ------------------------------------------------------------------------------------------------ simulated driver
-def drive(case, outs, res):
-    from coba.pipes.multiprocessing import Multiprocessor
-    f, _ = expected_of(case)
-    f = RecordingTagFilter(f.raising, f.fan, 0.0, f.kinds)
-    gen = Multiprocessor(f, case["n"], case["m"]).filter(list(range(case["items"])))
+def consume(gen, call, outs, res):
     try:
-        if case["abandon"] is None:
+        if call["abandon"] is None:
             for o in gen: outs.append(o)
         else:
             it = iter(gen)
-            for _ in range(case["abandon"]):
+            for _ in range(call["abandon"]):
                 try: outs.append(next(it))
                 except StopIteration: break
             it.close()
@@ -92,16 +107,26 @@ def drive(case, outs, res):
         res["exc"] = e
     res["returned"] = True
 
+def drive(case, results):
+    """One Multiprocessor object; one call, or two successive calls on the same object (the second must not inherit
+    anything from the first: errors, counters, stopped loaders)."""
+    from coba.pipes.multiprocessing import Multiprocessor
+    mp_ = Multiprocessor(combined_filter(case, RecordingTagFilter), case["n"], case["m"])
+    for call in calls_of(case):
+        outs, res = [], {}
+        results.append((call, outs, res))
+        consume(mp_.filter(items_of(call)), call, outs, res)
+
 class RecordingTagFilter(TagFilter):
     def filter(self, item):
         STATE.setdefault("handled", []).append((sim_c08.who(), item))
         return super().filter(item)
 
 def run_with(case, sched):
-    outs, res = [], {}
+    results = []
     with installed(sched):
         STATE["handled"] = []
-        sched.spawn("caller", lambda: drive(case, outs, res))
+        sched.spawn("caller", lambda: drive(case, results))
         result = sched.run()
         handled = list(STATE["handled"])
     info = {k: v for k, v in case.items() if k != "choices"}
@@ -112,10 +137,14 @@ def run_with(case, sched):
             raise Violation(f"participant {p.name} failed with {type(p.exc).__name__}: {p.exc} | case={info}") from p.exc
     if result == Sched.DEADLOCK:
         raise Violation(f"the call hangs: no participant can run, blocked={sched.blocked} | case={info} trace={sched.trace[-25:]} where={sched.blocked_stacks}")
-    require(res.get("returned"), "caller did not return", case=info)
-    if case["n"] == 1 and case["m"] == 0:
-        handled = None
-    judge(case, outs, res.get("exc"), handled)
+    require(len(results) == len(calls_of(case)) and all(r[2].get("returned") for r in results), "caller did not return", case=info)
+    for i, (call, outs, res) in enumerate(results):
+        mine = set(items_of(call))
+        h = None if (case["n"] == 1 and case["m"] == 0) else [(w, it) for w, it in handled if it in mine]
+        try:
+            judge(call, outs, res.get("exc"), h)
+        except Violation as e:
+            raise Violation(f"call #{i + 1} on the same Multiprocessor object: {e}") from e
     case["_switches"] = len(sched.trace)
 
 def run_sim(case):
@@ -133,11 +162,22 @@ def sim_cases(draw, tier):
     fan = {str(i): draw(st.integers(0, 3)) for i in sorted(draw(st.sets(st.integers(0, max(0, items - 1)), max_size=3)))} if items and draw(st.booleans()) else {}
     abandon = draw(st.integers(0, items + 1)) if draw(st.integers(0, 4)) == 0 else None
     kinds = {str(i): draw(st.sampled_from(sorted(KINDS))) for i in raising if draw(st.booleans())}
-    return {"n": n, "m": m, "items": items, "raising": raising, "fan": fan, "abandon": abandon, "kinds": kinds,
+    then = None
+    # a second call on the same object only after a first call that was consumed to its end (normally or through the filter's
+    # error): after an ABANDONED call coba leaves workers and completion callbacks behind that still write the object's
+    # counters, so re-using that object can hang (observed; coba itself builds a fresh Multiprocessor per call)
+    if abandon is None and draw(st.integers(0, 2)) == 0:
+        k2 = draw(st.integers(0, 6))
+        ids = list(range(100, 100 + k2))
+        r2 = sorted(draw(st.sets(st.sampled_from(ids), max_size=2))) if ids and draw(st.integers(0, 2)) == 0 else []
+        then = {"items": k2, "items_list": ids, "raising": r2, "fan": {str(i): draw(st.integers(0, 3)) for i in ids[:2]} if ids and draw(st.booleans()) else {},
+                "abandon": draw(st.integers(0, k2 + 1)) if draw(st.integers(0, 4)) == 0 else None,
+                "kinds": {str(i): draw(st.sampled_from(sorted(KINDS))) for i in r2 if draw(st.booleans())}}
+    return {"n": n, "m": m, "items": items, "raising": raising, "fan": fan, "abandon": abandon, "kinds": kinds, "then": then,
             "choices": draw(st.lists(st.integers(0, 5), max_size=250 if tier == "quick" else 500))}
 
 def nontrivial(case):
-    return ((case["n"] >= 2 and case["items"] > case["n"]) or (case["m"] > 0 and case["items"] > case["m"])
+    return (bool(case.get("then")) or (case["n"] >= 2 and case["items"] > case["n"]) or (case["m"] > 0 and case["items"] > case["m"])
             or bool(case["raising"]) or case["abandon"] is not None)
 
 def key(case):
@@ -152,6 +192,9 @@ def classes(case):
     if case["items"] < case["n"]: out.append("fewer-items-than-procs")
     if case["m"] and case["items"] % case["m"] == 0 and case["items"]: out.append("items-multiple-of-m")
     if case["fan"]: out.append("fanout")
+    if case.get("then"):
+        out.append("second-call-on-same-object")
+        if case["raising"]: out.append("second-call-after-filter-error")
     return out
 
 def pb_enumerate(tier):
@@ -198,30 +241,22 @@ def run_real_once(case):
     from coba.pipes.multiprocessing import Multiprocessor
     from coba.multiprocessing import CobaMultiprocessor
     from coba.context import CobaContext, NullLogger
-    f, _ = expected_of(case)
-    f = TagFilter(f.raising, f.fan, case.get("delay", 0.0), f.kinds)
-    outs, res = [], {}
+    f = combined_filter(case, TagFilter, case.get("delay", 0.0))
+    results = []
     old_logger = CobaContext.logger
     CobaContext.logger = NullLogger()
     def target():
-        try:
-            if case["via"] == "coba":
-                gen = CobaMultiprocessor(f, case["n"], case["m"]).filter(list(range(case["items"])))
-            else:
-                gen = Multiprocessor(f, case["n"], case["m"], read_wait=case["via"] == "read_wait").filter(list(range(case["items"])))
-            if case["abandon"] is None:
-                for o in gen: outs.append(o)
-            else:
-                it = iter(gen)
-                for _ in range(case["abandon"]):
-                    try: outs.append(next(it))
-                    except StopIteration: break
-                it.close()
-        except Exception as e:
-            res["exc"] = e
-        except BaseException as e:
-            res["other"] = e
-        res["returned"] = True
+        if case["via"] == "coba":
+            mp_ = CobaMultiprocessor(f, case["n"], case["m"])
+        else:
+            mp_ = Multiprocessor(f, case["n"], case["m"], read_wait=case["via"] == "read_wait")
+        for call in calls_of(case):
+            outs, res = [], {}
+            results.append((call, outs, res))
+            try:
+                consume(mp_.filter(items_of(call)), call, outs, res)
+            except BaseException as e:
+                res["other"] = e; res["returned"] = True
     t = threading.Thread(target=target, daemon=True)
     try:
         t.start()
@@ -234,9 +269,14 @@ def run_real_once(case):
             try: p.terminate()
             except Exception: pass
     info = dict(case)
-    if "other" in res:
-        raise Violation(f"the call raised {type(res['other']).__name__}: {res['other']} | case={info}") from res["other"]
-    judge(case, outs, res.get("exc"), None)
+    require(len(results) == len(calls_of(case)), "the caller stopped before its last call", case=info)
+    for i, (call, outs, res) in enumerate(results):
+        if "other" in res:
+            raise Violation(f"call #{i + 1} raised {type(res['other']).__name__}: {res['other']} | case={info}") from res["other"]
+        try:
+            judge(call, outs, res.get("exc"), None)
+        except Violation as e:
+            raise Violation(f"call #{i + 1} on the same Multiprocessor object: {e}") from e
 
 @st.composite
 def real_cases(draw, tier):
@@ -248,9 +288,23 @@ def real_cases(draw, tier):
         # CobaMultiprocessor's callers (ProcessTasks) return iterators of outputs; a bare value would be flattened by its
         # worker-side `yield from`, so every item gets an explicit generator output here
         c["fan"] = {str(i): c["fan"].get(str(i), 1) for i in range(c["items"])}
-    if c["via"] == "read_wait" and c["abandon"] is not None:
+        if c.get("then"):
+            c["then"]["fan"] = {str(i): c["then"]["fan"].get(str(i), 1) for i in c["then"]["items_list"]}
+    if c["via"] == "read_wait" and (c["abandon"] is not None or (c.get("then") and c["then"]["abandon"] is not None)):
         c["via"] = "pipes"
+    if c["raising"] and c["via"] == "pipes" and not c.get("then") and draw(st.integers(0, 3)) == 0:
+        # a worker process that dies hard in the middle of an item: the call must still terminate
+        c["kinds"] = dict(c["kinds"], **{str(c["raising"][0]): "die"})
     return c
+
+def real_fixed(tier):
+    """a handful of fixed real-process cases that every run executes (incl. a worker dying hard in the middle of an item)"""
+    base = {"fan": {}, "abandon": None, "then": None, "delay": 0.0}
+    yield dict(base, n=2, m=0, items=4, raising=[1], kinds={"1": "die"}, via="pipes")
+    yield dict(base, n=1, m=1, items=3, raising=[0], kinds={"0": "die"}, via="pipes")
+    yield dict(base, n=3, m=2, items=7, raising=[5], kinds={"5": "die"}, via="pipes")
+    yield dict(base, n=2, m=1, items=5, raising=[2], kinds={"2": "AssertionError"}, via="pipes",
+               then={"items": 3, "items_list": [100, 101, 102], "raising": [], "fan": {}, "abandon": None, "kinds": {}})
 
 SUBCHECKS = [
     Sub(name="sim", run=run_sim, strategy=sim_cases, nontrivial=nontrivial, classes=classes, key=key,
@@ -259,6 +313,8 @@ SUBCHECKS = [
     Sub(name="pb", run=run_pb, enumerate=pb_enumerate, nontrivial=lambda c: len(c["preemptions"]) >= 1, exhaustive=True,
         quick_shards=4, quick_budget_s=50, thorough_budget_s=1500,
         what="complete enumeration of all schedules with <= 1 preemption (thorough: <= 2 for the smallest) of small configurations (n<=3, items<=5, raising subsets, abandonment)"),
+    Sub(name="real_fixed", run=run_real, enumerate=real_fixed, nontrivial=lambda c: True, exhaustive=False, quick_shards=4, thorough_shards=4,
+        quick_budget_s=60, what="four fixed real-process cases run every time: a worker dying by os._exit mid-item for three (n, m) shapes - the call must terminate without duplicated outputs - and a second call on the same object after a filter error"),
     Sub(name="real", run=run_real, strategy=real_cases, nontrivial=nontrivial, classes=classes, quick=24, thorough=640,
         quick_shards=8, thorough_shards=16, quick_budget_s=60, thorough_budget_s=1200,
         what="real spawned workers via Multiprocessor (incl. read_wait) and CobaMultiprocessor; same oracle; OS schedules sampled"),
